@@ -166,6 +166,50 @@ def main():
                         chk.violation(f"C05|builtin-cost-not-monotone|{f}", {"builtin": f, "variant": variant, "smaller": [s1, c1], "larger": [s2, c2]})
                         break
     chk.count("builtin_cost_groups", sum(len(v) for v in groups.values()))
+    # monitor 3b: the charged cost must be a member of the cost-model language (costfit.py)
+    import itertools
+
+    import costfit
+
+    for (f, variant), by_size in sorted(groups.items()):
+        table = [(st, next(iter(c))) for st, c in by_size.items() if len(c) == 1 and all(len(x) == 2 for x in st)]
+        table = [(st, c) for st, c in table if max(c) < 2**62]
+        if len(table) < 8:
+            chk.count("shape_fit_skipped_too_few_points")
+            continue
+        ar = len(table[0][0])
+        choices = []
+        for i in range(ar):
+            opts = ["size"]
+            if any(st[i][1] is not None for st, _ in table):
+                opts.append("literal")
+                # a requested output length in bytes is costed as the size of such a byte string
+                # (8-byte words): replicateByte, integerToByteString
+                opts.append("literal-as-bytestring-words")
+            choices.append(opts)
+        for di, dim in ((0, "cpu"), (1, "mem")):
+            fitted = None
+            for combo in itertools.product(*choices):
+                pts = {}
+                clash = False
+                for st, c in table:
+                    key = tuple((x[1] if (m == "literal" and x[1] is not None) else (0 if x[1] == 0 else (x[1] - 1) // 8 + 1) if (m == "literal-as-bytestring-words" and x[1] is not None) else x[0]) for x, m in zip(st, combo))
+                    if pts.setdefault(key, c[di]) != c[di]:
+                        clash = True
+                        break
+                if clash:
+                    continue
+                fam = costfit.fit(sorted(pts.items()), dim)
+                if fam:
+                    fitted = (combo, fam)
+                    break
+            if fitted:
+                chk.held(h(["shape", f, variant, dim]))
+                chk.count("shape_fits")
+                chk.count(f"shape:{dim}:{fitted[1]}")
+            else:
+                sample_pts = sorted(((tuple(x[0] for x in st), c[di]) for st, c in table))[:14]
+                chk.violation(f"C05|builtin-cost-outside-the-cost-model-language|{f}|{dim}", {"builtin": f, "variant": variant, "dimension": dim, "points_sizes_cost": sample_pts, "note": "no costing-function family of the specification reproduces these (sizes -> cost) points"})
 
     # monitor 4: metamorphic budgets on terminating programs
     progs = []
